@@ -24,6 +24,9 @@ func Render(e ast.Expr) string {
 		case "nil", "true", "false":
 			return x.Name
 		}
+		if x.Name != "" && x.Name[0] >= 'A' && x.Name[0] <= 'Z' {
+			return x.Name // an exported package-level constant / variable (locals are not capitalised)
+		}
 		return "_"
 	case *ast.BasicLit:
 		return x.Value
@@ -195,4 +198,103 @@ func SwitchAssigns(path, recv, fn, tagField string) ([][]string, error) {
 		return out, nil
 	}
 	return nil, fmt.Errorf("%s: function %s.%s not found", path, recv, fn)
+}
+
+// Statements lists, in source order, the canonical forms of the decisions and field updates of a function:
+// "if <cond>" for every if / else-if condition (init statements rendered as "<lhs> := <rhs>; "), "set <lhs> = <rhs>"
+// for every assignment whose destination is a field or an indexed element, "inc"/"dec" for ++/--.
+func Statements(path, recv, fn string) ([]string, error) {
+	fset := token.NewFileSet()
+	f, err := parser.ParseFile(fset, path, nil, 0)
+	if err != nil {
+		return nil, err
+	}
+	for _, d := range f.Decls {
+		fd, ok := d.(*ast.FuncDecl)
+		if !ok || fd.Body == nil || fd.Name.Name != fn || recvName(fd) != recv {
+			continue
+		}
+		var out []string
+		ast.Inspect(fd.Body, func(n ast.Node) bool {
+			switch x := n.(type) {
+			case *ast.IfStmt:
+				out = append(out, "if "+Render(x.Cond))
+			case *ast.AssignStmt:
+				if len(x.Lhs) == 1 && len(x.Rhs) == 1 {
+					switch x.Lhs[0].(type) {
+					case *ast.SelectorExpr, *ast.IndexExpr:
+						out = append(out, "set "+Render(x.Lhs[0])+" "+x.Tok.String()+" "+Render(x.Rhs[0]))
+					}
+				}
+			case *ast.IncDecStmt:
+				out = append(out, x.Tok.String())
+			}
+			return true
+		})
+		return out, nil
+	}
+	return nil, fmt.Errorf("%s: function %s.%s not found", path, recv, fn)
+}
+
+// SliceInit tells how the first local slice of element type elem is introduced in the function: "nil" for
+// `var x []elem` (or `x := []elem(nil)`), "empty" for a composite literal / make, "other" otherwise.
+func SliceInit(path, recv, fn, elem string) (string, error) {
+	fset := token.NewFileSet()
+	f, err := parser.ParseFile(fset, path, nil, 0)
+	if err != nil {
+		return "", err
+	}
+	isSlice := func(e ast.Expr) bool {
+		at, ok := e.(*ast.ArrayType)
+		return ok && at.Len == nil && typeName(at.Elt) == elem
+	}
+	for _, d := range f.Decls {
+		fd, ok := d.(*ast.FuncDecl)
+		if !ok || fd.Body == nil || fd.Name.Name != fn || recvName(fd) != recv {
+			continue
+		}
+		res := ""
+		ast.Inspect(fd.Body, func(n ast.Node) bool {
+			if res != "" {
+				return false
+			}
+			switch x := n.(type) {
+			case *ast.DeclStmt:
+				if gd, ok := x.Decl.(*ast.GenDecl); ok && gd.Tok == token.VAR {
+					for _, sp := range gd.Specs {
+						vs := sp.(*ast.ValueSpec)
+						if vs.Type != nil && isSlice(vs.Type) {
+							if len(vs.Values) == 0 {
+								res = "nil"
+							} else {
+								res = "other"
+							}
+						}
+					}
+				}
+			case *ast.AssignStmt:
+				if x.Tok == token.DEFINE && len(x.Rhs) == 1 {
+					switch r := x.Rhs[0].(type) {
+					case *ast.CompositeLit:
+						if isSlice(r.Type) {
+							res = "empty"
+						}
+					case *ast.CallExpr:
+						if id, ok := r.Fun.(*ast.Ident); ok && id.Name == "make" && len(r.Args) > 0 && isSlice(r.Args[0]) {
+							res = "empty"
+						}
+						if isSlice(r.Fun) {
+							res = "nil"
+						}
+					}
+				}
+			}
+			return true
+		})
+		if res == "" {
+			return "", fmt.Errorf("%s: %s.%s: no local []%s", path, recv, fn, elem)
+		}
+		return res, nil
+	}
+	return "", fmt.Errorf("%s: function %s.%s not found", path, recv, fn)
 }
